@@ -20,6 +20,9 @@ import Bee2V.C06.Core
 namespace Bee2V.C06
 open Instr Prog
 
+/- `ec2SetO(a, ec)` = `xa <- 1; ya <- 0; za <- 0` (`O = (1 : 0 : 0)`) is written out in the O-producing branches
+   below (they write all three words since the commit "ec2/ecp doubling and addition set only Z when the result is O") -/
+
 /-- `ec2FromALD`: `[3n]b <- [2n]a (P <- A)`: `xb <- xa; yb <- ya; zb <- 1` -/
 def ec2FromALD (b a : Nat) : Prog :=
   block [copy (cX b) (cX a), copy (cY b) (cY a), one (cZ b)] (ret true)
@@ -48,8 +51,8 @@ def ec2DblLDTail (b s : Nat) : Prog :=
     `xb <- xb + A * zb` is skipped for `A == 0`, an addition for `A == 1`, a multiplication otherwise -/
 def ec2DblLD (b a s : Nat) : Prog :=
   let t1 := s; let t2 := s + 1
-  ifz (cZ a) (seq (zero (cZ b)) (ret true)) <|
-  ifz (cX a) (seq (zero (cZ b)) (ret true)) <|
+  ifz (cZ a) (block [one (cX b), zero (cY b), zero (cZ b)] (ret true)) <|
+  ifz (cX a) (block [one (cX b), zero (cY b), zero (cZ b)] (ret true)) <|
   block [
     mul t1 (cX a) (cZ a),          -- t1 <- xa za [A]
     sqr (cZ b) t1,                 -- zb <- t1^2 [A^2]
@@ -73,7 +76,7 @@ def ec2DblALDTail (b s : Nat) : Prog :=
 /-- `ec2DblALD`: `[3n]b <- 2[2n]a (P <- 2A)`, `xa == 0 => b <- O` -/
 def ec2DblALD (b a s : Nat) : Prog :=
   let t1 := s
-  ifz (cX a) (seq (zero (cZ b)) (ret true)) <|
+  ifz (cX a) (block [one (cX b), zero (cY b), zero (cZ b)] (ret true)) <|
   block [
     sqr (cZ b) (cX a),             -- zb <- xa^2 [C]
     sqr (cX b) (cZ b),             -- xb <- zb^2 + B [C^2 + a6]
@@ -99,7 +102,7 @@ def ec2AddLD (c a b s : Nat) : Prog :=
     sqr t4 (cZ a),                 -- t4 <- yb za^2 [H]
     mul t4 t4 (cY b)] <|
   ifeq t1 t2
-    (ifeq t3 t4 (ec2DblLD c a (s + 6)) (seq (zero (cZ c)) (ret true))) <|
+    (ifeq t3 t4 (ec2DblLD c a (s + 6)) (block [one (cX c), zero (cY c), zero (cZ c)] (ret true))) <|
   block [
     add t5 t1 t2,                  -- t5 <- t1 + t2 [E]
     add t6 t3 t4,                  -- t6 <- t3 + t4 [I]
@@ -149,7 +152,7 @@ def ec2AddALD (c a b s : Nat) : Prog :=
     mul t2 (cX b) (cZ a),          -- t2 <- xa + xb za [B]
     add t2 t2 (cX a)] <|
   ifz t2
-    (ifz t1 (ec2DblALD c b (s + 4)) (seq (zero (cZ c)) (ret true))) <|
+    (ifz t1 (ec2DblALD c b (s + 4)) (block [one (cX c), zero (cY c), zero (cZ c)] (ret true))) <|
   block [
     mul t3 t2 (cZ a),              -- t3 <- t2 za [C]
     sqr (cZ c) t3,                 -- zc <- t3^2 [C^2]
